@@ -720,10 +720,11 @@ fn live_resolver(tier: &str, seed: u64) -> Case {
             let _ = tx.send(match r { Ok(Ok(Some(b))) => format!("ok {}", text::hex(&b)), Ok(Ok(None)) => "none".to_string(), Ok(Err(_)) => "err".to_string(), Err(_) => "panic".to_string() });
         });
         std::thread::sleep(Duration::from_millis(150));
-        for d in [vec![], vec![0x42u8], vec![0x42, 0x42, 0x80], vec![0x43, 0x43, 0x80, 0, 0, 0, 0, 1], vec![0xFFu8; 11]] { let _ = sock.send_to(&d, dest); }
-        // (a truncated datagram that carries the query's own id, the response bit and a non-zero ANCOUNT in its first eight
-        // bytes would be handed back as it is - `query_packet` returns raw bytes, and no property speaks about that; the
-        // truncated one here has another id)
+        for d in [vec![], vec![0x43u8], vec![0x43, 0x43, 0x80], vec![0x43, 0x43, 0x80, 0, 0, 0, 0, 1], vec![0xFFu8; 11]] { let _ = sock.send_to(&d, dest); }
+        // (the resolver peeks id, QR and ANCOUNT in its whole 4096-byte receive buffer, not in the bytes just received: a
+        // datagram of 3 bytes carrying the query's own id and the response bit is handed back as "the response" when the
+        // bytes left over from an earlier datagram say ANCOUNT > 0. `query_packet` returns raw bytes and no property speaks
+        // about which; the short datagrams here carry another id so that the outcome does not depend on earlier traffic)
         let rname = Name::new_unchecked("verif-raw14._tcp.local");
         let mk = |id: u16, with_answer: bool| { let mut p = Packet::new_reply(id); if with_answer { p.answers.push(ResourceRecord::new(rname.clone(), CLASS::IN, 5, RData::TXT(simple_dns::rdata::TXT::new().with_string("k=v").unwrap()))); } p.build_bytes_vec_compressed().unwrap() };
         let _ = sock.send_to(&mk(0x4243, true), dest);
